@@ -28,6 +28,15 @@ structure FillOk (fill : Inst → Inst) : Prop where
 
 theorem fillOk_id : FillOk id := ⟨fun _ => rfl, fun _ => rfl⟩
 
+/-- the one shape the reader of the code at hand does not renumber (`Generated.threading.aggrNested`, see
+    `C14_nested_site`): references inside an aggregate that is an element of an aggregate.  `NestedOk f` excludes it:
+    either the reader applies the increment to those text elements, or no instance of `f` has a reference there -/
+def NestedOk (f : List Inst) : Prop := threading.aggrNested = true ∨ ∀ i ∈ f, FlatInst i
+
+/-- the attribute-level reader reports nothing on the instances of the file (what `C15_conforming_clean` says of a
+    conforming instance; here a hypothesis, the two models are not composed) -/
+def Quiet (asev : Inst → Sev) (f : List Inst) : Prop := ∀ i ∈ f, asev i = .null
+
 /-! ### the offset -/
 
 /-- an empty manager (`MaxFileId()` below 0) reads ids unchanged -/
@@ -106,11 +115,12 @@ theorem above_all {s : Sess} (hs : Inv s) {x : Int} (hx : 1 ≤ x) :
   have := C14_offset_above s.maxId (by omega)
   omega
 
-theorem appendExchange_spec (fill : Inst → Inst) (hfill : FillOk fill) (s : Sess) (f : List Inst)
-    (hs : Inv s) (hf : Conf f) :
-    (appendExchange fill noSev s f).nodes =
-      s.nodes ++ f.map (fun i => ⟨fill (i.shift (fileIdIncrOf s.maxId)), .complete⟩) ∧
-    (appendExchange fill noSev s f).maxId = maxWith s.maxId ((f.map (·.id)).map (· + fileIdIncrOf s.maxId)) := by
+theorem appendExchange_spec (fill : Inst → Inst) (hfill : FillOk fill) (asev : Inst → Sev) (s : Sess) (f : List Inst)
+    (hs : Inv s) (hf : Conf f)
+    (hn : threading.aggrNested = true ∨ fileIdIncrOf s.maxId = 0 ∨ ∀ i ∈ f, FlatInst i) :
+    (appendExchange fill asev s f).nodes =
+      s.nodes ++ f.map (fun i => ⟨fill (i.shift (fileIdIncrOf s.maxId)), exchangeStateOf (asev i)⟩) ∧
+    (appendExchange fill asev s f).maxId = maxWith s.maxId ((f.map (·.id)).map (· + fileIdIncrOf s.maxId)) := by
   have hk0 := C14_offset_nonneg s.maxId
   have hfresh : ∀ x ∈ (f.map (·.id)).map (· + fileIdIncrOf s.maxId), x ∉ ids s.nodes := by
     intro x hx hmem
@@ -130,7 +140,7 @@ theorem appendExchange_spec (fill : Inst → Inst) (hfill : FillOk fill) (s : Se
     (by rw [kept_exchange, fids_exchange]; exact hfresh) (by rw [kept_exchange, fids_exchange]; exact hnd)
     (by rw [kept_exchange, fids_exchange]; exact hnz) (by rw [cntSkipped_exchange]; exact Nat.zero_le _)
   rw [kept_exchange, fids_exchange] at h1
-  have h2 := pass2_spec .exchange fill noSev (fileIdIncrOf s.maxId) (pass1 .exchange (fileIdIncrOf s.maxId) s (exchangeEntries f)).maxId
+  have h2 := pass2_spec .exchange fill asev (fileIdIncrOf s.maxId) (pass1 .exchange (fileIdIncrOf s.maxId) s (exchangeEntries f)).maxId
     hfill.id_eq rfl rfl (exchangeEntries f) s.nodes
     (by
       rw [kept_exchange, fids_exchange, List.nodup_append]
@@ -146,6 +156,16 @@ theorem appendExchange_spec (fill : Inst → Inst) (hfill : FillOk fill) (s : Se
       simp only [List.mem_map] at this
       obtain ⟨j, hj, rfl⟩ := this
       exact ⟨j.id, ⟨j, hj, rfl⟩, rfl⟩)
+    (by
+      rw [kept_exchange]
+      rcases hn with h | h | h
+      · exact Or.inl h
+      · exact Or.inr (Or.inl h)
+      · refine Or.inr (Or.inr ?_)
+        intro e he
+        simp only [exchangeEntries, List.mem_map] at he
+        obtain ⟨i, hi, rfl⟩ := he
+        exact h i hi)
   rw [kept_exchange] at h2
   constructor
   · unfold appendExchange appendFile
@@ -156,17 +176,17 @@ theorem appendExchange_spec (fill : Inst → Inst) (hfill : FillOk fill) (s : Se
       rw [← h1.1]
     rw [hs1, h2]
     simp [exchangeEntries, filledNode, finalState, Function.comp_def]
-    intro i _; rfl
   · unfold appendExchange appendFile
     simp only []
     rw [pass2_maxId, h1.2]
 
 /-- the invariant survives an append: what was proved about one append holds after any history -/
-theorem appendExchange_inv (fill : Inst → Inst) (hfill : FillOk fill) (s : Sess) (f : List Inst)
-    (hs : Inv s) (hf : Conf f) : Inv (appendExchange fill noSev s f) := by
-  obtain ⟨hn, hm⟩ := appendExchange_spec fill hfill s f hs hf
+theorem appendExchange_inv (fill : Inst → Inst) (hfill : FillOk fill) (asev : Inst → Sev) (s : Sess) (f : List Inst)
+    (hs : Inv s) (hf : Conf f)
+    (hn : threading.aggrNested = true ∨ fileIdIncrOf s.maxId = 0 ∨ ∀ i ∈ f, FlatInst i) : Inv (appendExchange fill asev s f) := by
+  obtain ⟨hn, hm⟩ := appendExchange_spec fill hfill asev s f hs hf hn
   have hk0 := C14_offset_nonneg s.maxId
-  have hids : ids (appendExchange fill noSev s f).nodes = ids s.nodes ++ (f.map (·.id)).map (· + fileIdIncrOf s.maxId) := by
+  have hids : ids (appendExchange fill asev s f).nodes = ids s.nodes ++ (f.map (·.id)).map (· + fileIdIncrOf s.maxId) := by
     rw [hn]; simp [ids, hfill.id_eq, Inst.shift, Function.comp_def]
   constructor
   · rw [hids, List.nodup_append]
@@ -196,36 +216,61 @@ theorem inv_cleared : Inv cleared :=
 
 /-! ### the property -/
 
-/-- `ReadExchangeFile` of a conforming file: the population itself, ids and references unchanged, all complete. -/
-theorem C14_read (f : List Inst) (hf : Conf f) :
-    (readExchange id noSev f).nodes = f.map (fun i => ⟨i, .complete⟩) ∧ Inv (readExchange id noSev f) := by
-  have h := appendExchange_spec id fillOk_id cleared f inv_cleared hf
-  refine ⟨?_, appendExchange_inv id fillOk_id cleared f inv_cleared hf⟩
-  show (appendExchange id noSev cleared f).nodes = _
+theorem nestedOk_weaken {s : Sess} {f : List Inst} (hn : NestedOk f) :
+    threading.aggrNested = true ∨ fileIdIncrOf s.maxId = 0 ∨ ∀ i ∈ f, FlatInst i := by
+  rcases hn with h | h
+  · exact Or.inl h
+  · exact Or.inr (Or.inr h)
+
+/-- `ReadExchangeFile` of a conforming file (ANY conforming file: with offset 0 nothing has to be renumbered): the population
+    itself, ids and references unchanged; complete where the attribute-level reader reports nothing. -/
+theorem C14_read (asev : Inst → Sev) (f : List Inst) (hf : Conf f) (hq : Quiet asev f) :
+    (readExchange id asev f).nodes = f.map (fun i => ⟨i, .complete⟩) ∧ Inv (readExchange id asev f) := by
+  have hn : threading.aggrNested = true ∨ fileIdIncrOf cleared.maxId = 0 ∨ ∀ i ∈ f, FlatInst i :=
+    Or.inr (Or.inl C14_offset_cleared)
+  have h := appendExchange_spec id fillOk_id asev cleared f inv_cleared hf hn
+  refine ⟨?_, appendExchange_inv id fillOk_id asev cleared f inv_cleared hf hn⟩
+  show (appendExchange id asev cleared f).nodes = _
   rw [h.1, C14_offset_cleared]
-  simp [cleared, shift_zero]
+  simp only [cleared, List.nil_append, shift_zero, id]
+  apply List.map_congr_left
+  intro i hi
+  rw [hq i hi]; rfl
 
 /-- Appending a conforming file to a session in any reachable state: every earlier instance is still there, unchanged
     and in place; every instance of the appended file is there, its id **and every reference at every depth** moved
     by the one offset `k = fileIdIncrOf maxFileId`; `k` is above every earlier id; the result is again a state in
-    which the same holds for the next append. -/
-theorem C14_both_present (s : Sess) (f : List Inst) (hs : Inv s) (hf : Conf f) :
-    (appendExchange id noSev s f).nodes = s.nodes ++ f.map (fun i => ⟨i.shift (fileIdIncrOf s.maxId), .complete⟩) ∧
+    which the same holds for the next append.
+    `_partial`: EXCLUDED are files with a reference inside an aggregate that is an element of an aggregate
+    (`LIST OF LIST OF entity`, b_spline_surface.control_points_list) as long as the reader does not renumber the text
+    elements of such aggregates (`NestedOk`; on the code at hand: `C14_nested_site`, `C14_nested_aggregate_captures_witness`).
+    "complete" holds where the attribute-level reader reports nothing (`Quiet`). -/
+theorem C14_both_present_partial (asev : Inst → Sev) (s : Sess) (f : List Inst) (hs : Inv s) (hf : Conf f)
+    (hn : NestedOk f) (hq : Quiet asev f) :
+    (appendExchange id asev s f).nodes = s.nodes ++ f.map (fun i => ⟨i.shift (fileIdIncrOf s.maxId), .complete⟩) ∧
     (∀ e ∈ ids s.nodes, e < fileIdIncrOf s.maxId) ∧
-    Inv (appendExchange id noSev s f) := by
-  refine ⟨(appendExchange_spec id fillOk_id s f hs hf).1, ?_, appendExchange_inv id fillOk_id s f hs hf⟩
-  intro e he
-  have h1 := hs.pos e he
-  have h2 := hs.le_max e he
-  have := C14_offset_above s.maxId (by omega)
-  omega
+    Inv (appendExchange id asev s f) := by
+  refine ⟨?_, ?_, appendExchange_inv id fillOk_id asev s f hs hf (nestedOk_weaken hn)⟩
+  · rw [(appendExchange_spec id fillOk_id asev s f hs hf (nestedOk_weaken hn)).1]
+    congr 1
+    apply List.map_congr_left
+    intro i hi
+    rw [hq i hi]; rfl
+  · intro e he
+    have h1 := hs.pos e he
+    have h2 := hs.le_max e he
+    have := C14_offset_above s.maxId (by omega)
+    omega
 
-/-- the same with the lenient-mode substitution of C15 in place (`fill` may replace unset required values only) -/
-theorem C14_both_present_fill (fill : Inst → Inst) (hfill : FillOk fill) (s : Sess) (f : List Inst)
-    (hs : Inv s) (hf : Conf f) :
-    (appendExchange fill noSev s f).nodes = s.nodes ++ f.map (fun i => ⟨fill (i.shift (fileIdIncrOf s.maxId)), .complete⟩) ∧
-    Inv (appendExchange fill noSev s f) :=
-  ⟨(appendExchange_spec fill hfill s f hs hf).1, appendExchange_inv fill hfill s f hs hf⟩
+/-- the same with the lenient-mode substitution of C15 in place (`fill` may replace unset required values only); the state of
+    each instance is what the severity the attribute-level reader reports for it maps to -/
+theorem C14_both_present_fill_partial (fill : Inst → Inst) (hfill : FillOk fill) (asev : Inst → Sev) (s : Sess) (f : List Inst)
+    (hs : Inv s) (hf : Conf f) (hn : NestedOk f) :
+    (appendExchange fill asev s f).nodes =
+      s.nodes ++ f.map (fun i => ⟨fill (i.shift (fileIdIncrOf s.maxId)), exchangeStateOf (asev i)⟩) ∧
+    Inv (appendExchange fill asev s f) :=
+  ⟨(appendExchange_spec fill hfill asev s f hs hf (nestedOk_weaken hn)).1,
+   appendExchange_inv fill hfill asev s f hs hf (nestedOk_weaken hn)⟩
 
 theorem refs_shift (k : Int) (i : Inst) : (i.shift k).refs = i.refs.map (· + k) := by
   have hv : ∀ v : Val, (v.mapRefs (· + k)).refs = v.refs.map (· + k) := by
@@ -248,9 +293,7 @@ theorem refs_shift (k : Int) (i : Inst) : (i.shift k).refs = i.refs.map (· + k)
   | nil => rfl
   | cons p ps ih => simp [List.flatMap_cons, hvs, ih]
 
-/-- No capture: after the append, no reference held by an appended instance names an earlier instance — even when the
-    file used the very same numbers — and every such reference names the appended counterpart of its original target. -/
-theorem C14_no_capture (s : Sess) (f : List Inst) (hs : Inv s) (hf : Conf f) :
+theorem no_capture_shift (s : Sess) (f : List Inst) (hs : Inv s) (hf : Conf f) :
     ∀ i ∈ f, ∀ r ∈ (i.shift (fileIdIncrOf s.maxId)).refs,
       r ∉ ids s.nodes ∧ ∃ j ∈ f, r = (j.shift (fileIdIncrOf s.maxId)).id := by
   intro i hi r hr
@@ -265,20 +308,40 @@ theorem C14_no_capture (s : Sess) (f : List Inst) (hs : Inv s) (hf : Conf f) :
   have := above_all hs (hf.pos j hj) _ hmem
   omega
 
+/-- No capture: in the session the append produces, no reference held by a node behind the earlier ones names an earlier
+    instance — even when the file used the very same numbers — and every such reference names a node that came with the
+    appended file.  `_partial`: same exclusion as `C14_both_present_partial`. -/
+theorem C14_no_capture_partial (asev : Inst → Sev) (s : Sess) (f : List Inst) (hs : Inv s) (hf : Conf f)
+    (hn : NestedOk f) (hq : Quiet asev f) :
+    ∀ n ∈ (appendExchange id asev s f).nodes.drop s.nodes.length, ∀ r ∈ n.inst.refs,
+      r ∉ ids s.nodes ∧ r ∈ ids ((appendExchange id asev s f).nodes.drop s.nodes.length) := by
+  rw [(C14_both_present_partial asev s f hs hf hn hq).1]
+  simp only [List.drop_left]
+  intro n hnm r hr
+  simp only [List.mem_map] at hnm
+  obtain ⟨i, hi, rfl⟩ := hnm
+  obtain ⟨h1, j, hj, rfl⟩ := no_capture_shift s f hs hf i hi r hr
+  refine ⟨h1, ?_⟩
+  simp only [ids, List.map_map, List.mem_map]
+  exact ⟨j, hj, rfl⟩
+
 /-- one `ReadExchangeFile` followed by any number of `AppendExchangeFile`s -/
-def appendAll (s : Sess) (fs : List (List Inst)) : Sess := fs.foldl (appendExchange id noSev) s
+def appendAll (asev : Inst → Sev) (s : Sess) (fs : List (List Inst)) : Sess := fs.foldl (appendExchange id asev) s
 
 /-- … every file's instances are present, earlier ones are never touched again (the session only grows at the end),
-    and the invariant — hence `C14_both_present` and `C14_no_capture` for the next append — holds throughout. -/
-theorem C14_history (s : Sess) (fs : List (List Inst)) (hs : Inv s) (hfs : ∀ f ∈ fs, Conf f) :
-    Inv (appendAll s fs) ∧ s.nodes <+: (appendAll s fs).nodes ∧
-    (appendAll s fs).nodes.length = s.nodes.length + (fs.map List.length).sum := by
+    and the invariant — hence `C14_both_present_partial` and `C14_no_capture_partial` for the next append — holds throughout.
+    `_partial`: every file satisfies `NestedOk`. -/
+theorem C14_history_partial (asev : Inst → Sev) (s : Sess) (fs : List (List Inst)) (hs : Inv s) (hfs : ∀ f ∈ fs, Conf f)
+    (hns : ∀ f ∈ fs, NestedOk f) (hqs : ∀ f ∈ fs, Quiet asev f) :
+    Inv (appendAll asev s fs) ∧ s.nodes <+: (appendAll asev s fs).nodes ∧
+    (appendAll asev s fs).nodes.length = s.nodes.length + (fs.map List.length).sum := by
   induction fs generalizing s with
   | nil => exact ⟨hs, List.prefix_refl _, by simp [appendAll]⟩
   | cons f fs ih =>
     have hf := hfs f (by simp)
-    have h1 := C14_both_present s f hs hf
-    have := ih (appendExchange id noSev s f) h1.2.2 (fun g hg => hfs g (by simp [hg]))
+    have h1 := C14_both_present_partial asev s f hs hf (hns f (by simp)) (hqs f (by simp))
+    have := ih (appendExchange id asev s f) h1.2.2 (fun g hg => hfs g (by simp [hg])) (fun g hg => hns g (by simp [hg]))
+      (fun g hg => hqs g (by simp [hg]))
     simp only [appendAll, List.foldl_cons] at this ⊢
     refine ⟨this.1, ?_, ?_⟩
     · exact List.IsPrefix.trans (by rw [h1.1]; exact List.prefix_append _ _) this.2.1
@@ -291,7 +354,38 @@ theorem C14_history (s : Sess) (fs : List (List Inst)) (hs : Inv s) (hfs : ∀ f
 when one site drops the increment: it keeps its number as written and binds to the EARLIER instance bearing that number
 (capture).  Each is the predicted failing input of the corresponding source change. -/
 
-theorem C14_threading_complete : threading = allOn := rfl
+/-- the 14 call sites between the instance reader and `ReadEntityRef` hand the increment on … -/
+theorem C14_threading_complete : threading = allOnN threading.aggrNested := rfl
+
+/-- … and the 15th place a reference can stand in is not renumbered by the code at hand: `STEPaggregate::ReadValue`, the
+    reader of GenericAggregate (what exp2cxx makes of an aggregate of aggregates), keeps its elements as text and drops the
+    increment (`(void) addFileId;`).  To be flipped to `= true` when repair C14-1 is in (then `NestedOk` holds for every file
+    and the `_partial` theorems are the full statements). -/
+theorem C14_nested_site : threading.aggrNested = false := rfl
+
+/-- what that does (KNOWN_FINDINGS `append:nested-aggregate-reference-not-renumbered`): a reference inside an aggregate that is
+    an element of an aggregate keeps its number as written, whatever the offset and whatever the manager holds … -/
+theorem C14_nested_aggregate_captures_witness (ns : List Node) (k r : Int) (t : Val) :
+    resolveValT (allOnN false) ns .top k (.aggr (.cons (.aggr (.cons (.ref r) t)) .nil)) =
+      (.aggr (.cons (.aggr (.cons (.ref r) (t.mapRefs (· + 0)))) .nil), true) := by
+  simp [resolveValT, thr, Val.mapRefs, allOnN]
+
+/-- … the audit's input: `#1=PT(11); #2=PT(12); #3=SURF(((#1,#2)),(#1,#2))` read and then appended to itself — the appended
+    SURF's flat list names #2001/#2002, its nested list still names #1/#2 of the EARLIER file -/
+theorem C14_nested_aggregate_file_witness :
+    let fA : List Inst := [⟨1, [⟨"PT", [.tok "11"]⟩], ""⟩, ⟨2, [⟨"PT", [.tok "12"]⟩], ""⟩,
+      ⟨3, [⟨"SURF", [.aggr (.cons (.aggr (.cons (.ref 1) (.cons (.ref 2) .nil))) .nil), .aggr (.cons (.ref 1) (.cons (.ref 2) .nil))]⟩], ""⟩]
+    ((appendExchange id noSev (readExchange id noSev fA) fA).nodes.map (·.inst)).drop 5 =
+      [⟨2003, [⟨"SURF", [.aggr (.cons (.aggr (.cons (.ref 1) (.cons (.ref 2) .nil))) .nil),
+                         .aggr (.cons (.ref 2001) (.cons (.ref 2002) .nil))]⟩], ""⟩] := by
+  decide
+
+/-- with the increment applied to the text elements (repair C14-1) the same value is renumbered like every other reference —
+    without a look-up, the element stays text -/
+theorem C14_nested_repaired_shape (ns : List Node) (k r : Int) :
+    resolveValT (allOnN true) ns .top k (.aggr (.cons (.aggr (.cons (.ref r) .nil)) .nil)) =
+      (.aggr (.cons (.aggr (.cons (.ref (r + k)) .nil)) .nil), true) := by
+  simp [resolveValT, thr, Val.mapRefs, allOnN]
 
 /-- a reference read with an increment that was dropped to 0 on the way binds to the earlier instance of that number -/
 theorem capture_ref (T : Threading) (ns : List Node) (c : Ctx) (r : Int) (h : r ∈ ids ns) :
@@ -303,34 +397,34 @@ theorem capture_ref (T : Threading) (ns : List Node) (c : Ctx) (r : Int) (h : r 
 theorem C14_dropping_redef_captures (ns : List Node) (k r : Int) (h : r ∈ ids ns) :
     resolveValT { allOn with redef := false } ns .top k (.via .redecl (.ref r)) = (.via .redecl (.ref r), true) := by
   have hf : (find ns r).isSome = true := find_isSome.mpr h
-  simp [resolveValT, resolvePartsT, resolveValsT, thr, allOn, hf]
+  simp [resolveValT, resolvePartsT, resolveValsT, thr, allOn, allOnN, hf]
 
 /-- typed select value carrying references (`ENT_LIST((#r))`), `SDAI_Select::STEPread` not handing the increment to the content -/
 theorem C14_dropping_selectContent_captures (ns : List Node) (k r : Int) (n : String) (h : r ∈ ids ns) :
     resolveValT { allOn with selectContent := false } ns .top k (.via .select (.typed n (.aggr (.cons (.ref r) .nil)))) =
       (.via .select (.typed n (.aggr (.cons (.ref r) .nil))), true) := by
   have hf : (find ns r).isSome = true := find_isSome.mpr h
-  simp [resolveValT, resolvePartsT, resolveValsT, thr, allOn, hf]
+  simp [resolveValT, resolvePartsT, resolveValsT, thr, allOn, allOnN, hf]
 
 /-- element of an aggregate of selects, the select node read without the increment -/
 theorem C14_dropping_aggrSelectElem_captures (ns : List Node) (k r : Int) (h : r ∈ ids ns) :
     resolveValT { allOn with aggrSelectElem := false } ns .top k (.aggr (.cons (.via .select (.ref r)) .nil)) =
       (.aggr (.cons (.via .select (.ref r)) .nil), true) := by
   have hf : (find ns r).isSome = true := find_isSome.mpr h
-  simp [resolveValT, resolvePartsT, resolveValsT, thr, allOn, hf]
+  simp [resolveValT, resolvePartsT, resolveValsT, thr, allOn, allOnN, hf]
 
 /-- part of a complex instance read without the increment -/
 theorem C14_dropping_complexPart_captures (ns : List Node) (k r : Int) (nm : String) (h : r ∈ ids ns) :
     resolvePartsT { allOn with complexPart := false } ns true k [⟨nm, [.ref r]⟩] = ([⟨nm, [.ref r]⟩], true) := by
   have hf : (find ns r).isSome = true := find_isSome.mpr h
-  simp [resolveValT, resolvePartsT, resolveValsT, thr, allOn, hf]
+  simp [resolveValT, resolvePartsT, resolveValsT, thr, allOn, allOnN, hf]
 
 /-- the reader exp2cxx emits for a select with an aggregate member (`ENT_LIST((#r))`) not handing the increment to the aggregate -/
 theorem C14_dropping_genSelectAggr_captures (ns : List Node) (k r : Int) (n : String) (h : r ∈ ids ns) :
     resolveValT { allOn with genSelectAggr := false } ns .top k (.via .select (.typed n (.aggr (.cons (.ref r) .nil)))) =
       (.via .select (.typed n (.aggr (.cons (.ref r) .nil))), true) := by
   have hf : (find ns r).isSome = true := find_isSome.mpr h
-  simp [resolveValT, resolvePartsT, resolveValsT, thr, allOn, hf]
+  simp [resolveValT, resolvePartsT, resolveValsT, thr, allOn, allOnN, hf]
 
 /-- the emitted reader of a select whose member is itself a select not handing the increment to that member -/
 theorem C14_dropping_genSelectNested_captures (ns : List Node) (k r : Int) (n : String) (h : r ∈ ids ns) :
@@ -338,7 +432,7 @@ theorem C14_dropping_genSelectNested_captures (ns : List Node) (k r : Int) (n : 
         (.via .select (.typed n (.via .nested (.aggr (.cons (.ref r) .nil))))) =
       (.via .select (.typed n (.via .nested (.aggr (.cons (.ref r) .nil)))), true) := by
   have hf : (find ns r).isSome = true := find_isSome.mpr h
-  simp [resolveValT, resolvePartsT, resolveValsT, thr, allOn, hf]
+  simp [resolveValT, resolvePartsT, resolveValsT, thr, allOn, allOnN, hf]
 
 /-- `ReadEntityRef` not adding the increment: every reference everywhere is captured -/
 theorem C14_dropping_refAdd_captures (ns : List Node) (c : Ctx) (k r : Int) (h : r ∈ ids ns) :
@@ -368,7 +462,7 @@ theorem C14_memoless_reader_uses_offset (ns : List Node) (k r : Int) (h : r + k 
   have hf : (find ns (r + k)).isSome = true := find_isSome.mpr h
   constructor
   · simp [resolveRefMemo, hf]
-  · simp [resolveValT, thr, allOn, hf]
+  · simp [resolveValT, thr, allOn, allOnN, hf]
 
 /-- … and the increment a reader works with is the one it was handed: no function of the path assigns its `addFileId` /
     `idIncr` parameter or takes its address, and the id `ReadEntityRef` looks up is written exactly three times — initialised,
@@ -379,10 +473,10 @@ theorem C14_increment_not_reassigned :
 /-- the increment is a function of the file-level offset only: what an appended file becomes depends on the session it is
     appended to through `maxFileId` alone — two sessions with the same `maxFileId`, whatever they hold and whatever was read
     into them before, turn the same file into the same instances (ids and every reference at every depth) -/
-theorem C14_increment_function_of_max (s₁ s₂ : Sess) (f : List Inst) (h₁ : Inv s₁) (h₂ : Inv s₂) (hf : Conf f)
-    (h : s₁.maxId = s₂.maxId) :
-    (appendExchange id noSev s₁ f).nodes.drop s₁.nodes.length = (appendExchange id noSev s₂ f).nodes.drop s₂.nodes.length := by
-  rw [(C14_both_present s₁ f h₁ hf).1, (C14_both_present s₂ f h₂ hf).1, h]
+theorem C14_increment_function_of_max_partial (asev : Inst → Sev) (s₁ s₂ : Sess) (f : List Inst) (h₁ : Inv s₁) (h₂ : Inv s₂)
+    (hf : Conf f) (hn : NestedOk f) (hq : Quiet asev f) (h : s₁.maxId = s₂.maxId) :
+    (appendExchange id asev s₁ f).nodes.drop s₁.nodes.length = (appendExchange id asev s₂ f).nodes.drop s₂.nodes.length := by
+  rw [(C14_both_present_partial asev s₁ f h₁ hf hn hq).1, (C14_both_present_partial asev s₂ f h₂ hf hn hq).1, h]
   simp
 
 /-! ### hypotheses are satisfiable; the interesting case (identical ids in both files) is covered -/
@@ -390,6 +484,7 @@ theorem C14_increment_function_of_max (s₁ s₂ : Sess) (f : List Inst) (h₁ :
 def exA : List Inst := [⟨1, [⟨"T0", [.tok "5", .ref 2]⟩], ""⟩, ⟨2, [⟨"T1", [.aggr (.cons (.ref 1) .nil)]⟩], ""⟩]
 
 example : Conf exA := ⟨by decide, by decide, by decide⟩
+example : NestedOk exA := Or.inr (by unfold FlatInst; decide)
 example : (appendExchange id noSev (readExchange id noSev exA) exA).nodes.map (·.inst) =
     exA ++ [⟨2001, [⟨"T0", [.tok "5", .ref 2002]⟩], ""⟩, ⟨2002, [⟨"T1", [.aggr (.cons (.ref 2001) .nil)]⟩], ""⟩] := by decide
 
